@@ -157,6 +157,10 @@ def tagwrite(run, fx):
                                  {'store': fn.render(e), 'path_blocks': path})
                     continue
                 sh = _tag_shift(fn, rhs, tagv)
+                if isinstance(sh, tuple):
+                    run.violated('TAGWRITE', inst, fn.loc(e), 'the byte stored at offset %d is masked with %#x: a tag byte with one of the cleared bits set is written wrongly '
+                                 '(a tag is four arbitrary bytes; gr_str_to_tag(gr_tag_to_str(t)) is no longer t)' % (o, sh[1]))
+                    continue
                 if sh is None:
                     run.broken('TAGWRITE', inst, 'stored value has an unknown shape: %s' % fn.render(rhs), fn.loc(e))
                 elif sh != 24 - 8 * o:
@@ -208,8 +212,10 @@ def _tag_shift(fn, rhs, tagv):
         break
     if n['k'] == 'BinaryOperator' and n['op'] == '&':
         m = fn.strip_all_casts(n['c'][1])
-        if m.get('v') != 0xff:
+        if m.get('v') is None:
             return None
+        if (m['v'] & 0xff) != 0xff:
+            return ('mask', m['v'])          # a constant mask that clears bits of the byte being stored
         n = fn.strip_all_casts(n['c'][0])
     if n['k'] == 'DeclRefExpr' and n.get('vid') == tagv:
         return 0
